@@ -33,7 +33,7 @@ func (c12) Plan(tier string) wk.Plan {
 	}
 	return wk.Plan{
 		Level: "exploration", Cases: n, Chunk: 10, Configs: cfgs, CaseBudget: 120, HangIsViolation: true,
-		Rule:          "case = one workload item repeated in a batch (parsing: 40 repetitions; pipelines: 6): (parse, 50%) every input class of C04 - in particular every way parsing stops before the end of input: syntax error inside an expression, trailing tokens (1, 2, many), unterminated string/comment, stray closing brackets, generate-time errors - through Generate of the value, float and bool generators and the bare parser, comments on/off; (pipelines, 50%) evaluations whose consumer stops a parallel (map/accept with sleeping closures, > 12 elements) or channel-fed (merge, multiUse) stage early - first, top, present, indexWhere, single, ~ - and every error path (failing element before/after the switch to parallel execution, a source that fails from item K on for every K = 10..14 around the switch, failing consumer, try/catch around it, panicking host function), result consumed or dropped. After the batch the goroutine profile is compared with the baseline: a goroutine of parser2/iterator that survives two snapshots (poll window 5 s) is a leak. Non-trivial = batch that started goroutines (observed in the profile during or after the batch, or parse inputs that stop early); distinct by (config, item). The evidence reports leaked goroutines per repetition (slope) per signature.",
+		Rule:          "case = one workload item repeated in a batch (parsing: 40 repetitions; pipelines: 6): (parse, 50%) every input class of C04 - in particular every way parsing stops before the end of input: syntax error inside an expression, trailing tokens (1, 2, many), unterminated string/comment, stray closing brackets, an error right in front of a character that becomes two tokens, generate-time errors - through Generate of the value, float and bool generators and the bare parser, comments on/off; (pipelines, 50%) evaluations whose consumer stops a parallel (map/accept with sleeping closures, > 12 elements) or channel-fed (merge, multiUse) stage early - first, top, present, indexWhere, single, ~ - and every error path (failing element before/after the switch to parallel execution, a source that fails from item K on for every K = 10..14 around the switch, failing consumer, try/catch around it, panicking host function), result consumed or dropped. After the batch the goroutine profile is compared with the baseline: a goroutine of parser2/iterator that survives two snapshots (poll window 5 s) is a leak. Non-trivial = batch that started goroutines (observed in the profile during or after the batch, or parse inputs that stop early); distinct by (config, item). The evidence reports leaked goroutines per repetition (slope) per signature.",
 		Floor:         100,
 		FloorCounters: map[string]int64{"snapshots": 200},
 		Assumptions:   []string{"'short grace period' is decided as: gone within a 5 s polling window; only goroutines present with the same id in two snapshots count", "parallel stages rely on the dependency's timing switch; the evidence counts batches in which worker goroutines were actually seen"},
@@ -48,7 +48,11 @@ func c12ParseInput(c *wk.Case) (string, string) {
 	r := c.Rng
 	valid := []string{"1+2", "a*b", "[1,2].size()", "let x=1; x+a", "f(1)", "{a:1}.a", "(x->x)(1)", "\"s\"+1"}
 	v := valid[r.IntN(len(valid))]
-	switch r.IntN(14) {
+	switch r.IntN(15) {
+	case 13:
+		// the parse stops right in front of a character the tokenizer turns into TWO tokens (superscript digits):
+		// whoever releases the tokenizer goroutine must cope with both sends
+		return []string{"(q)²", "(1+q)²", "let x=1; x y³", "[1,2}²", "(q)² + 1", v + " )²", v + " ) ²", v + " ) x²", "(q)²³", "1+q ²"}[r.IntN(10)], "error-before-two-token-rune"
 	case 0:
 		return v + " )", "trailing-1"
 	case 1:
@@ -91,7 +95,7 @@ func c12Pipeline(c *wk.Case) (string, string) {
 		// positions around the switch to workers (12 items): the consumer stops at the first error while
 		// workers may hold results or may never have been given an item
 		K := 10 + (c.Index/16)%5
-		switch r.IntN(4) {
+		switch (c.Index / 80) % 4 { // every (K, shape) pair is met within 320 cases
 		case 0:
 			return fmt.Sprintf("numbers(40).number((i,n)->if n>=%d then failAt(n,n) else n).map(n->delay(tick(0,n),600)).reduce((a,b)->a+b)", K), fmt.Sprintf("par-source-fails-from-%d", K)
 		case 1:
